@@ -596,7 +596,10 @@ def _typename(v) -> str:
 
 def mutate(doc, W, X, fault) -> Tuple[dict, dict]:
     """-> (mutant document, what) ; what = {"kind", "detail" (signature fragment), "text" (human readable)}"""
-    kind, p = choose_fault(doc, W, X, fault)
+    if fault.get("at"):               # replay files pin the concrete position
+        kind, p = fault["at"][0], fault["at"][1]
+    else:
+        kind, p = choose_fault(doc, W, X, fault)
     m = clone(doc)
     comps = W["components"]
     what = {"kind": kind, "pos": p}
